@@ -402,6 +402,17 @@ def m_strip(ex, st, args, kwargs, node):
     return [(st, VStr(z3.String(fresh_name("strip"))))]
 
 
+RSTRIPS = z3.Function("rstrip_slashes", S, S)          # s.rstrip("/") (uninterpreted name of the library function; round 7)
+
+
+def m_rstrip(ex, st, args, kwargs, node):
+    s0 = args[0]
+    if len(args) == 2 and isinstance(args[1], VStr) and args[1].const() == "/":
+        c = s0.const()
+        return [(st, VStr(c.rstrip("/")) if c is not None else VStr(RSTRIPS(s0.t)))]
+    return [(st, VStr(z3.String(fresh_name("rstrip"))))]
+
+
 DAY_US = 86400 * 1000000
 
 
@@ -447,6 +458,7 @@ def m_dt_astimezone(ex, st, obj, args, kwargs, node):
 def install_string_models(reg):
     reg.ext_models["os.path.splitext"] = m_splitext
     reg.ext_models["str.strip"] = m_strip
+    reg.ext_models["str.rstrip"] = m_rstrip
     reg.ext_models["str.lower"] = m_lower
     reg.ext_models["str.split"] = m_split
     reg.ext_models["str.ljust"] = m_ljust
@@ -2468,10 +2480,25 @@ def part_b(reg):
         st.wobj(ref).data["_site_id"] = sid
         return sid
 
+    def site_lookup_url(c):
+        """Round 7: with a cached site id no request is made; without one the single request addresses the Graph site-by-path
+        resource of the client's site URL: `<v1.0>/sites/{hostname}` followed by `:{server-relative path}` when the path
+        (without trailing slashes) is not empty (format written here from the Graph documentation)."""
+        urls = c.st.ghost.get("requested", ())
+        if isinstance(self_field(c, "_site_id", c.entry), VStr):
+            return z3.BoolVal(len(urls) == 0)
+        su = self_field(c, "_site_url", c.entry)
+        if len(urls) != 1 or not isinstance(urls[0], VStr) or not isinstance(su, VStr):
+            return z3.BoolVal(False)
+        host, path = NETLOC(su.t), RSTRIPS(UPATH(su.t))
+        root = z3.Concat(sv(GRAPH_V1 + "/sites/"), host)
+        return z3.If(z3.Length(path) > 0, urls[0].t == z3.Concat(root, sv(":"), path), urls[0].t == root)
+
     out.append(FnContract(
         target=f"{CLIENT}::SharePointRestClient.get_site_id",
         params=[("self", p_client())],
-        ensures=[("site-id-cached-is-the-one-returned", site_cached), ("responses-closed", closed)],
+        ensures=[("site-id-cached-is-the-one-returned", site_cached), ("responses-closed", closed),
+                 ("a-cached-site-id-needs-no-request;-otherwise-one-request-to-the-site-by-path-resource-(graph-path)", body_only(site_lookup_url))],
         raises=family_raises(),
         modifies=("self",), frame=site_frame,
         result_maker=site_result,
